@@ -1,18 +1,7 @@
 SPECIFICATION TraceSpec
 CONSTANTS
   NC = 3
-  SASet = {TRUE, FALSE}
-  OAuthSet = {TRUE, FALSE}
-  DelSet = {"ok", "405", "404", "neterr", "timeout"}
-  PostSet = {"json", "badjson", "sse", "202", "badct", "rpcerr", "rpc404", "404", "http", "401", "5xx", "neterr"}
-  GetSet = {"sse", "405", "404", "4xx", "500", "200plain", "503sse", "neterr"}
-  InitH = {"", "A", "B"}
-  HSet = {"", "A", "B"}
-  MaxNotify = 1
-  MaxSaEv = 8
-  MaxAuth = 8
-  MaxClose = 8
-  AllowCancel = TRUE
+  Profiles <- TraceProfiles
   FixCancel = FALSE
   FixStream = FALSE
 CONSTRAINT TMark
